@@ -48,7 +48,9 @@ def trim_weights(
         weights_trimmed = weights[mask]
         weights_trimmed /= np.sum(weights_trimmed)
         ess_trimmed = 1.0 / np.sum(weights_trimmed**2.0)
-        if ess_trimmed / ess_total >= ess:
+        # At the lowest grid point (percentile 0) every sample is kept: the ratio
+        # is 1 up to rounding, so the search stops there whatever the rounding
+        if ess_trimmed / ess_total >= ess or i == 0:
             break
         i -= 1
 
